@@ -110,6 +110,8 @@ class Parser:
                     args.append(self.parse())
                     while self.peek() == ("op", ","):
                         self.next()
+                        if self.peek() == ("op", ")"):      # trailing comma
+                            break
                         args.append(self.parse())
                 self.expect(")")
                 return self.postfix(("call", name, generic, args))
